@@ -97,7 +97,8 @@ def render(mode, ops):
                 md.append("A %d" % o[1])
         elif k == "tx":
             sw.append("tx " + ",".join(o[1]))
-            md.append("T " + ",".join(o[1]))
+            # (EINTR before the first byte is a recoverable refusal like EAGAIN: one token of the model's alphabet)
+            md.append("T " + ",".join("again" if t == "intr" else t for t in o[1]))
             ntok += len(o[1])
         elif k == "run":
             sw.append("run")
@@ -183,6 +184,9 @@ def oracle(mode, ops, body):
     req_outstanding = False
     broken = False
     it = iter(body)
+    # causes that may legitimately end the connection in these histories: a scripted hard write error, unparsable input,
+    # the user's disconnect
+    may_end = any((o[0] == "tx" and "err" in o[1]) or o[0] in ("srv_bad", "disc") for o in ops)
 
     def nxt(kind):
         for t in it:
@@ -214,6 +218,9 @@ def oracle(mode, ops, body):
             elif t == "E:disconnect":
                 live = False
                 req_outstanding = False
+                if not may_end:
+                    bad.append("the connection was given up although the transport only refused recoverably (EAGAIN / EINTR): "
+                               "queued elements can no longer reach the wire")
             else:
                 bad.append("unexpected token %s inside an iteration" % t[:40])
         if data and not was_live:
@@ -322,11 +329,13 @@ class Texts:
         self.n += 1
         api = api or rng.choice(["send", "sendraw", "sendst"])
         if length is None:
-            length = rng.choice([1, 2, 3, 5, 8, 13, 40] if rng.random() < 0.93 else [1022, 1023, 1024, 1025, 1100, 2049])
+            length = rng.choice([1, 2, 3, 5, 8, 13, 40, 1, 3, 8, 0] if rng.random() < 0.93 else [1022, 1023, 1024, 1025, 1100, 2049])
         if api == "sendst":
             head, tail = '<message id="u%d"><body>' % self.n, "</body></message>"
             fill = max(1, length - len(head) - len(tail))
             return api, head + "".join(rng.choice("abcdefgh") for _ in range(fill)) + tail
+        if api in ("send", "sendraw") and length == 0:
+            return api, ""                      # an empty element (xmpp_send_raw(conn, "", 0) / xmpp_send_raw_string("%s", ""))
         head = "%d:" % self.n
         fill = max(0, length - len(head))
         return api, head + "".join(rng.choice("ABCDEFGHxyz<>/ '\"=&%") for _ in range(fill))
@@ -335,7 +344,7 @@ class Texts:
 SCHEDS = {
     "all": lambda n: [],
     "bytewise": lambda n: ["k1"] * n,
-    "stutter": lambda n: (["again", "k2", "k1", "again", "k3", "all"] * n)[:n],
+    "stutter": lambda n: (["again", "k2", "k1", "intr", "k3", "all"] * n)[:n],
     "abort": lambda n: ["k2", "again", "err"],
 }
 
@@ -400,7 +409,7 @@ def random_history(rng, mode, nops):
                 elif c < 0.70:
                     toks.append("k%d" % rng.choice([1, 2, 3, 4, 5, 7, 8, 12, 13, 16, 25, 26, 27, 40, 155, 1023, 1024]))
                 elif c < 0.96:
-                    toks.append("again")
+                    toks.append("again" if rng.random() < .7 else "intr")
                 else:
                     toks.append("err")
             ops.append(("tx", toks))
@@ -516,7 +525,10 @@ def evaluate(chk, cases, exe, mexe):
             chk.fail(case, "implementation: " + p, extra={"scenario": lines[i][0]})
         if any(t.startswith("W:") for t in body):
             chk.nontrivial.add(key)
-        for b in oracle(mode, ops, body)[:3]:
+        # (a history with an empty element is judged by the correspondence only: an empty element is invisible on the wire,
+        #  the byte-level reference of the oracle cannot tell when it was "started" or "sent")
+        has_empty = any(o[0] == "send" and o[2] == "" for o in ops)
+        for b in ([] if has_empty else oracle(mode, ops, body)[:3]):
             chk.fail(case, b, extra={"scenario": lines[i][0], "trace": " ".join(body)[:2000]})
         if model is not None:
             chk.traces_validated += 1
@@ -548,7 +560,7 @@ def run(chk):
         "sits in front of the request in the queue, so address reuse cannot alias (argued, not modelled)",
         "oracle: an element counts as started once an iteration of the event loop has attempted it (wip), also when the transport "
         "accepted none of its bytes",
-        "empty elements (len 0) are not generated: the simulated send() answers EAGAIN for a zero-length write",
+        "empty elements (len 0) are generated (the simulated send() accepts a zero-length write with result 0, as send(2) does); histories containing one are decided by model/implementation correspondence only, the byte-level oracle skips them",
     ]
     chk.prove()
     exe = build_impl()
